@@ -52,17 +52,17 @@ bool has_markup(const Val& v) { if (v.t == RT::Str) for (unsigned char ch : v.s)
 
 // typed record with attributes
 struct Rec {
-	std::string a; int64_t n = 0; std::vector<std::string> items; double d = 0; std::string label; int32_t id = 0; bool flag = false;
-	template <class A> void Serialize(A& ar) { ar << AttributeValue("id", id) << AttributeValue("label", label) << AttributeValue("flag", flag) << KeyValue("a", a) << KeyValue("n", n) << KeyValue("items", items) << KeyValue("d", d); }
-	bool operator==(const Rec& o) const { return a == o.a && n == o.n && items == o.items && memcmp(&d, &o.d, 8) == 0 && label == o.label && id == o.id && flag == o.flag; }
+	std::string a; int64_t n = 0; std::vector<std::string> items; double d = 0; std::string label; int32_t id = 0; bool flag = false; double ratio = 0; float weight = 0;
+	template <class A> void Serialize(A& ar) { ar << AttributeValue("id", id) << AttributeValue("label", label) << AttributeValue("flag", flag) << AttributeValue("ratio", ratio) << AttributeValue("weight", weight) << KeyValue("a", a) << KeyValue("n", n) << KeyValue("items", items) << KeyValue("d", d); }
+	bool operator==(const Rec& o) const { return a == o.a && n == o.n && items == o.items && memcmp(&d, &o.d, 8) == 0 && label == o.label && id == o.id && flag == o.flag && memcmp(&ratio, &o.ratio, 8) == 0 && memcmp(&weight, &o.weight, 4) == 0; }
 };
-Rec gen_rec(vf::Src& s, const GenCtx& g) { Rec r; r.a = refutf::enc8(gen_text(s, g, 10)); r.n = s.integer<int64_t>(); for (size_t n = 1 + s.len(3); n > 0; n--) r.items.push_back(refutf::enc8(gen_text(s, g, 8))); r.d = gen_f64(s); r.label = refutf::enc8(gen_text(s, g, 10)); r.id = s.integer<int32_t>(); r.flag = s.coin(); return r; }
+Rec gen_rec(vf::Src& s, const GenCtx& g) { Rec r; r.a = refutf::enc8(gen_text(s, g, 10)); r.n = s.integer<int64_t>(); for (size_t n = 1 + s.len(3); n > 0; n--) r.items.push_back(refutf::enc8(gen_text(s, g, 8))); r.d = gen_f64(s); r.label = refutf::enc8(gen_text(s, g, 10)); r.id = s.integer<int32_t>(); r.flag = s.coin(); r.ratio = gen_f64(s); if (r.ratio == 0) r.ratio = 0.5; { float f; switch (s.draw(3)) { case 0: { uint32_t b = static_cast<uint32_t>(s.draw(0)); memcpy(&f, &b, 4); break; } case 1: f = 1.0f / static_cast<float>(1 + s.draw(1000)); break; default: f = static_cast<float>(s.draw(20000000)) + 0.5f; } if (!std::isfinite(f) || f == 0) f = 0.25f; r.weight = f; } return r; }
 El el_of_rec(const Rec& r) {
-	El e; e.name = "object"; e.leaf = false; e.attrs = { { "id", std::to_string(r.id) }, { "label", r.label }, { "flag", r.flag ? "true" : "false" } };
+	El e; e.name = "object"; e.leaf = false; { char b1[40], b2[40]; snprintf(b1, sizeof b1, "%.17g", r.ratio); snprintf(b2, sizeof b2, "%.9g", static_cast<double>(r.weight)); e.attrs = { { "id", std::to_string(r.id) }, { "label", r.label }, { "flag", r.flag ? "true" : "false" }, { "ratio", std::string("\x02" "d") + b1 }, { "weight", std::string("\x02" "f") + b2 } }; }
 	El a; a.name = "a"; a.text = r.a; El n; n.name = "n"; n.kind = RT::Int; n.text = std::to_string(r.n); El it; it.name = "items"; it.leaf = false; it.isArray = true; for (auto& x : r.items) { El v; v.name = "value"; v.text = x; it.kids.push_back(v); } El d; d.name = "d"; d.kind = RT::F64; d.d = r.d;
 	e.kids = { a, n, it, d }; return e;
 }
-std::string rec_str(const Rec& r) { return vf::cat("{id=", r.id, " label=", vf::hex(r.label), " flag=", r.flag, " a=", vf::hex(r.a), " n=", r.n, " items=", r.items.size(), " d=", r.d, "}"); }
+std::string rec_str(const Rec& r) { return vf::cat("{ratio=", r.ratio, " weight=", r.weight, " id=", r.id, " label=", vf::hex(r.label), " flag=", r.flag, " a=", vf::hex(r.a), " n=", r.n, " items=", r.items.size(), " d=", r.d, "}"); }
 
 // ---- byte level --------------------------------------------------------------------------------------------------------------------
 bool decode_stream(const std::string& bytes, int enc, bool bom, std::string& utf8, std::string& why) {
@@ -87,7 +87,8 @@ bool same_infoset(xmlNode* n, const El& e, bool wsAllowed, std::string& why, con
 	auto fail = [&](const std::string& w) { why = path + "/" + e.name + ": " + w; return false; };
 	if (n->type != XML_ELEMENT_NODE || e.name != reinterpret_cast<const char*>(n->name)) return fail(vf::cat("element is named '", reinterpret_cast<const char*>(n->name), "'"));
 	size_t nAttr = 0; for (xmlAttr* a = n->properties; a; a = a->next) nAttr++; if (nAttr != e.attrs.size()) return fail(vf::cat("has ", nAttr, " attributes, expected ", e.attrs.size()));
-	for (auto& kv : e.attrs) { xmlChar* p = xmlGetProp(n, reinterpret_cast<const xmlChar*>(kv.first.c_str())); std::string got = p ? reinterpret_cast<const char*>(p) : "\x01<missing>"; if (p) xmlFree(p); if (got != kv.second) return fail(vf::cat("attribute ", kv.first, " = [", vf::hex(got), "] expected [", vf::hex(kv.second), "]")); }
+	for (auto& kv : e.attrs) { xmlChar* p = xmlGetProp(n, reinterpret_cast<const xmlChar*>(kv.first.c_str())); std::string got = p ? reinterpret_cast<const char*>(p) : "\x01<missing>"; if (p) xmlFree(p); if (kv.second.size() > 2 && kv.second[0] == '\x02') { const bool isD = kv.second[1] == 'd'; const std::string w = kv.second.substr(2); if (!number_grammar(got)) return fail("numeric attribute " + kv.first + " is not a decimal number: [" + got + "]"); if (isD ? strtod(got.c_str(), nullptr) != strtod(w.c_str(), nullptr) : strtof(got.c_str(), nullptr) != strtof(w.c_str(), nullptr)) return fail(vf::cat("numeric attribute ", kv.first, " = [", got, "] is not ", w)); continue; }
+		if (got != kv.second) return fail(vf::cat("attribute ", kv.first, " = [", vf::hex(got), "] expected [", vf::hex(kv.second), "]")); }
 	std::string text; std::vector<xmlNode*> kids;
 	for (xmlNode* c = n->children; c; c = c->next) { if (c->type == XML_ELEMENT_NODE) kids.push_back(c); else if (c->type == XML_TEXT_NODE || c->type == XML_CDATA_SECTION_NODE) text += reinterpret_cast<const char*>(c->content ? c->content : BAD_CAST ""); else return fail("unexpected node type"); }
 	if (e.leaf) {
@@ -108,7 +109,7 @@ bool same_infoset_unordered(xmlNode* n, const El& e, std::string& why) {
 	if (e.leaf || e.isArray) { if (e.leaf) return same_infoset(n, e, true, why, ""); std::vector<xmlNode*> kids; for (xmlNode* c = n->children; c; c = c->next) if (c->type == XML_ELEMENT_NODE) kids.push_back(c); if (kids.size() != e.kids.size()) { why = "child count"; return false; } for (size_t k = 0; k < kids.size(); k++) if (!same_infoset_unordered(kids[k], e.kids[k], why)) return false; return true; }
 	std::vector<xmlNode*> kids; for (xmlNode* c = n->children; c; c = c->next) if (c->type == XML_ELEMENT_NODE) kids.push_back(c); if (kids.size() != e.kids.size()) { why = "child count"; return false; }
 	for (auto& want : e.kids) { xmlNode* f = nullptr; for (auto* k : kids) if (want.name == reinterpret_cast<const char*>(k->name)) f = k; if (!f) { why = "member missing: " + want.name; return false; } if (!same_infoset_unordered(f, want, why)) return false; }
-	for (auto& kv : e.attrs) { xmlChar* p = xmlGetProp(n, reinterpret_cast<const xmlChar*>(kv.first.c_str())); std::string got = p ? reinterpret_cast<const char*>(p) : "\x01"; if (p) xmlFree(p); if (got != kv.second) { why = "attribute " + kv.first; return false; } }
+	for (auto& kv : e.attrs) { xmlChar* p = xmlGetProp(n, reinterpret_cast<const xmlChar*>(kv.first.c_str())); std::string got = p ? reinterpret_cast<const char*>(p) : "\x01"; if (p) xmlFree(p); if (kv.second.size() > 2 && kv.second[0] == '\x02') { const std::string w = kv.second.substr(2); if (kv.second[1] == 'd' ? strtod(got.c_str(), nullptr) != strtod(w.c_str(), nullptr) : strtof(got.c_str(), nullptr) != strtof(w.c_str(), nullptr)) { why = "numeric attribute " + kv.first; return false; } continue; } if (got != kv.second) { why = "attribute " + kv.first; return false; } }
 	return true;
 }
 
@@ -129,7 +130,7 @@ void emit_ws(vf::Src& s, std::string& o, bool on) { if (!on) return; static cons
 std::string spell_double(vf::Src& s, double d) { char b[400]; switch (s.draw(4)) { case 0: snprintf(b, sizeof b, "%.17g", d); break; case 1: snprintf(b, sizeof b, "%.16e", d); break; case 2: snprintf(b, sizeof b, "%.20E", d); break; default: snprintf(b, sizeof b, "%.22g", d); } return b; }
 void emit(vf::Src& s, const El& e, std::string& o, int style, bool permute, bool ws) {
 	o += "<" + e.name; std::vector<size_t> ai(e.attrs.size()); for (size_t k = 0; k < ai.size(); k++) ai[k] = k; if (permute) for (size_t k = ai.size(); k > 1; --k) std::swap(ai[k - 1], ai[s.draw(k)]);
-	for (size_t k : ai) { const char q = s.coin() ? '"' : '\''; o += (s.chance(1, 4) ? "\n " : " ") + e.attrs[k].first + (s.chance(1, 6) ? " = " : "=") + q + esc(s, e.attrs[k].second, true, q, style) + q; }
+	for (size_t k : ai) { const char q = s.coin() ? '"' : '\''; std::string av = e.attrs[k].second; if (av.size() > 2 && av[0] == '\x02') av = av.substr(2); o += (s.chance(1, 4) ? "\n " : " ") + e.attrs[k].first + (s.chance(1, 6) ? " = " : "=") + q + esc(s, av, true, q, style) + q; }
 	if (s.chance(1, 6)) o += " "; o += ">";
 	if (e.leaf) {
 		std::string text = e.kind == RT::F64 ? spell_double(s, e.d) : e.text;
